@@ -1084,12 +1084,33 @@ static void rayCases(const std::string &tn, long nCases, int stream)
       if (dr[i] != S(0))
         ++nz;
     }
+    // ---- double rays only: sometimes one component is a tiny but normal double (far below FLT_MIN): a
+    // reciprocal clamped at a float threshold would change the slab of that axis (own generator, so the
+    // other cases stay what they were)
+    bool tinyDir = false;
+    if (sizeof(S) == 8) {
+      vh::Rng r2(vh::seed() * 1000003ull + (uint64_t)k, stream + 7001);
+      if (r2.chance(1, 6)) {
+        int ax = (int)r2.below(N);
+        dr[ax] = (S)((r2.chance(1, 2) ? 1 : -1) * std::ldexp(r2.real(1.0, 2.0), -(int)r2.range(130, 900)));
+        if (dr[ax] != S(0) && !nz)
+          ++nz;
+        else if (dr[ax] != S(0)) {
+          nz = 0;
+          for (int i = 0; i < N; ++i)
+            if (dr[i] != S(0))
+              ++nz;
+        }
+        tinyDir = true;
+        vh::count("tiny_double_direction_components");
+      }
+    }
     if (!nz) {
       int ax = (int)r.below(N);
       dr[ax] = r.chance(1, 2) ? S(1) : S(-0.75);
       nz     = 1;
     }
-    if (r.chance(1, 8)) {  // unit length, arbitrary mantissas
+    if (r.chance(1, 8) && !tinyDir) {  // unit length, arbitrary mantissas (the squared tiny component underflows: not normalised)
       double len = 0;
       for (int i = 0; i < N; ++i)
         len += (double)dr[i] * (double)dr[i];
